@@ -207,11 +207,10 @@ Fixpoint repeat_val (v : val) (k : nat) : list val :=
 
 (* deserialize_eps_zero::<T> *)
 Definition eps_zero (base : N) (t : ty) : R val :=
-  if size_of t =? 0 then
-    let+ p := rpos in rret (VRef ROne p 0 1 (mem_decode t []))
+  let+ _ := ralign (Some base) (unit_of t) in
+  let+ p := rpos in
+  if size_of t =? 0 then rret (VRef ROne p 0 1 (mem_decode t []))
   else
-    let+ _ := ralign (Some base) (unit_of t) in
-    let+ p := rpos in
     if (base + p) mod (align_of t) =? 0 then
       let+ b := take_slice (size_of t) in
       rret (VRef ROne p (size_of t) 1 (mem_decode t b))
@@ -249,14 +248,7 @@ Fixpoint deser_eps (base : N) (t : ty) {struct t} : R val :=
       else let+ len := rusize in let+ l := rrepeat (deser_eps base t') (N.to_nat len) in rret (VSeq l)
   | TSliceRef _ | TSerIter _ => rpanic PUnwrap
   | TArray n t' =>
-      if is_zc t' then
-        let+ _ := ralign (Some base) (unit_of t') in
-        let+ p := rpos in
-        if size_of t =? 0 then rret (VRef ROne p 0 1 (mem_decode t []))
-        else
-          let+ b := take_slice (size_of t) in
-          if (base + p) mod (align_of t) =? 0 then rret (VRef ROne p (size_of t) 1 (mem_decode t b))
-          else rpanic PDebugAssert
+      if is_zc t' then eps_zero base t    (* same steps as deserialize_eps_zero, unit of the element type *)
       else let+ l := rrepeat (deser_eps base t') (N.to_nat n) in rret (VSeq l)
   | TTuple _ _ => eps_zero base t
   | TOption t' =>
